@@ -44,7 +44,6 @@ var retryPortfolio = []solverSpec{
 	{"z3-5.1.0 relevancy=0 seed=2", func(f string, t int) []string {
 		return []string{"z3-new", fmt.Sprintf("-T:%d", t), "smt.relevancy=0", "smt.random_seed=2", f}
 	}},
-	{"z3-4.8.12", func(f string, t int) []string { return []string{"z3", fmt.Sprintf("-T:%d", t), f} }},
 	{"cvc5-1.0", func(f string, t int) []string { return []string{"cvc5", fmt.Sprintf("--tlimit=%d", t*1000), f} }},
 }
 
@@ -159,8 +158,11 @@ func discharge(o *Obligation, idx int, opt dischargeOpts) {
 		if i == 0 && !opt.allAgree && !opt.retry && t > 3 {
 			t = 3 // first attempt short; the others get the full budget
 		}
-		if opt.retry && t > 15 && i < len(list)-2 {
-			t = 15
+		if opt.retry && !opt.allAgree {
+			t = 10
+			if i == len(list)-1 {
+				t = 15
+			}
 		}
 		st, out := try(s, t)
 		if st == "unsat" || st == "sat" {
@@ -217,12 +219,17 @@ func dischargeAll(obls []*Obligation, opt dischargeOpts) {
 	if len(again) == 0 {
 		return
 	}
+	if len(again) > 24 && !opt.allAgree {
+		// many undecided obligations: the tree is broken in earnest; a second attempt at the first two dozen is
+		// enough to tell flakiness from failure
+		again = again[:24]
+	}
 	opt2 := opt
 	opt2.retry = true
 	if opt2.timeoutS < 30 {
 		opt2.timeoutS = 30
 	}
-	sem2 := make(chan struct{}, 4)
+	sem2 := make(chan struct{}, 8)
 	for _, i := range again {
 		wg.Add(1)
 		sem2 <- struct{}{}
